@@ -203,7 +203,26 @@ def main(tier):
                 elif mmx < 0.6:
                     dmax = r.randint(1, sd + 1)
                     src += "max" + str(dmax)
-                terms.append((src, t, sd, dmin, dmax, keep, k))
+                shown = src
+                # (a face-less die needs its count written when modifiers follow: `dmin2` is an identifier)
+                if r.random() < 0.15 and "势" not in src and "勢" not in src and src[:1].isdigit():
+                    # face-less die: the default face count (100) is used and the annotation names the die in normalised form
+                    sd_txt = str(sd)
+                    i = src.index(sd_txt, src.lower().index("d") + 1)
+                    mods = src[i + len(sd_txt):]
+                    if mods[:1].isdigit() or mods[:1] == "(":
+                        pass          # a count-less modifier would swallow... not the case: the face count came first
+                    src = src[:i] + mods
+                    if not (mods[:1].isdigit()):
+                        sd = 100
+                        shown = (f"{t}D100" if t > 1 else "D100") + ({1: "kl", 2: "kh", 3: "dl", 4: "dh"}[keep] + str(k) if keep else "")
+                        if dmin is not None:
+                            dmin = min(dmin, 101); shown += "min" + str(dmin)
+                        if dmax is not None:
+                            shown += "max" + str(dmax)
+                    else:
+                        src = shown          # keep the faced form
+                terms.append((src, t, sd, dmin, dmax, keep, k, shown))
             progs.append(terms)
         lines = [f"runseq L30000 {r.getrandbits(128):032x} {hx(' + '.join(t[0] for t in terms))}" for terms in progs]
         out = run.go_only("vm-terms", lines, go_timeout=60)
@@ -213,13 +232,13 @@ def main(tier):
                 run.violation("vm-terms:not-ok", {"source": " + ".join(t[0] for t in terms), "implementation": g})
                 continue
             detail = unhx(mo.group(2)).decode()
-            pat = " \\+ ".join(r"(-?\d+)\[" + _re.escape(t[0]) + r"(?:=([^\]]*))?\]" for t in terms)
+            pat = " \\+ ".join(r"(-?\d+)\[" + _re.escape(t[7]) + r"(?:=([^\]]*))?\]" for t in terms)
             md = _re.fullmatch(pat, detail)
             if not md:
                 run.violation("vm-terms:detail-shape", {"source": " + ".join(t[0] for t in terms), "detail": detail})
                 continue
             total = 0
-            for i, (src, t, sd, dmin, dmax, keep, k) in enumerate(terms):
+            for i, (src, t, sd, dmin, dmax, keep, k, shown) in enumerate(terms):
                 val = int(md.group(2 * i + 1))
                 txt = md.group(2 * i + 2)
                 if txt is None:
